@@ -140,6 +140,15 @@ pub async fn run_conc(cfg: RunCfg) -> RunResult {
         if round_has_index && (earlier_partial || plans.iter().any(|(_, _, op)| op.kind() == "merge_partial")) {
             r.seen_col_rewrite = true;
         }
+        for (_, _, op) in plans.iter() {
+            if let Op::Merge { src_cols, .. } = op {
+                if op.kind() == "merge_partial" {
+                    for c in src_cols.iter() {
+                        r.rewritten_cols.insert(c.clone());
+                    }
+                }
+            }
+        }
         for (a, rv, op) in plans.iter() {
             r.res.script.push(format!("{}: round {} party a{} @v{}: {}", step - 1, round, a, rv, op.brief()));
             r.res.kinds.push(format!("c:{}", op.kind()));
